@@ -4,10 +4,30 @@ import BppProofs.Lemmas.LU
 (`src/Bpp/Numeric/Matrix/LUDecomposition.h`, `MatrixTools::inv`, `MatrixTools::det`)
 
 Property theorems only; helper lemmas are in `Lemmas/LU.lean`.  All statements are about the
-model `Bpp.LU` instantiated at `ℝ` (exact arithmetic: rounding is not modelled).
+model `Bpp.LU` instantiated at `ℝ` (exact arithmetic: rounding is not modelled), for every size.
+`toMatrix` reads a model matrix as a Mathlib `Matrix (Fin m) (Fin n) ℝ`; `matMul`, `permuteRows`,
+`UnitLower`, `Upper`, `PivInjective` are the executable definitions of `BppModel/LU.lean` that the
+driver evaluates on the implementation's answers.
 -/
 namespace Bpp.C05
 open Bpp Bpp.LU
+
+/-! ## the constructor -/
+
+/-- the constructor has defined behaviour exactly for matrices with at least as many rows as
+columns (for `m < n` it reads `LU(m,m)`) -/
+theorem construct_defined_iff {m n : Nat} (A : Mat ℝ m n) :
+    (∃ s, construct A = .ok s) ↔ n ≤ m := by
+  unfold construct
+  constructor
+  · rintro ⟨s, hs⟩
+    by_cases h : n ≤ m
+    · exact h
+    · rw [dif_neg h] at hs; cases hs
+  · intro h; exact ⟨factor h A, by rw [dif_pos h]⟩
+
+theorem construct_square {n : Nat} (A : Mat ℝ n n) : construct A = .ok (factor (Nat.le_refl n) A) := by
+  unfold construct; rw [dif_pos (Nat.le_refl n)]
 
 /-- `getL` is unit lower triangular, whatever the state -/
 theorem getL_unitLower {m n : Nat} (s : State ℝ m n) : UnitLower (getL s) := by
@@ -25,5 +45,159 @@ theorem getU_upper {m n : Nat} (h : n ≤ m) (s : State ℝ m n) : Upper (getU h
   intro i j hji
   simp only [getU, Mat.get_ofFn]
   rw [if_neg (by omega)]
+
+/-- the pivot vector is a permutation of the row numbers -/
+theorem piv_is_permutation {m n : Nat} (h : n ≤ m) (A : Mat ℝ m n) :
+    ∃ σ : Equiv.Perm (Fin m), ∀ i : Fin m, (factor h A).piv[i.val]'i.isLt = σ i := by
+  obtain ⟨σ, h1, _⟩ := permInv_factor h A
+  exact ⟨σ, h1⟩
+
+theorem piv_injective {m n : Nat} (h : n ≤ m) (A : Mat ℝ m n) : PivInjective (factor h A).piv := by
+  obtain ⟨σ, h1⟩ := piv_is_permutation h A
+  intro i j hij
+  rw [h1 i, h1 j] at hij
+  exact σ.injective hij
+
+/-- **P·A = L·U**: for every `m × n` matrix with `n ≤ m` (in particular every square matrix) the
+rows of `A` taken in the order of the pivot vector equal the product of the accessors' `L` and `U`;
+`L` is unit lower triangular, `U` upper triangular, the pivot vector has no repetition.  Includes the
+iterations skipped because of a zero pivot. -/
+theorem lu_factor {m n : Nat} (h : n ≤ m) (A : Mat ℝ m n) :
+    permuteRows (factor h A).piv A = matMul (getL (factor h A)) (getU h (factor h A)) ∧
+    UnitLower (getL (factor h A)) ∧ Upper (getU h (factor h A)) ∧ PivInjective (factor h A).piv :=
+  ⟨Mat.ext (factor_entries h A), getL_unitLower _, getU_upper h _, piv_injective h A⟩
+
+/-- the same as an equation between Mathlib matrices: `P = (permutation matrix of σ)`, i.e.
+`A.submatrix σ id = L * U` where `σ i = piv[i]` -/
+theorem lu_factor_matrix {m n : Nat} (h : n ≤ m) (A : Mat ℝ m n) (σ : Equiv.Perm (Fin m))
+    (hσ : ∀ i : Fin m, (factor h A).piv[i.val]'i.isLt = σ i) :
+    (toMatrix A).submatrix σ id = toMatrix (getL (factor h A)) * toMatrix (getU h (factor h A)) := by
+  obtain ⟨σ', h1, _, h3⟩ := factor_matrix h A
+  have : σ = σ' := Equiv.ext fun i => by rw [← hσ i, h1 i]
+  rw [this]; exact h3
+
+/-- the sign kept by the constructor is the sign of the row permutation -/
+theorem pivsign_eq_sign {m n : Nat} (h : n ≤ m) (A : Mat ℝ m n) (σ : Equiv.Perm (Fin m))
+    (hσ : ∀ i : Fin m, (factor h A).piv[i.val]'i.isLt = σ i) :
+    (factor h A).pivsign = ((Equiv.Perm.sign σ : ℤˣ) : ℤ) := by
+  obtain ⟨σ', h1, h2, _⟩ := factor_matrix h A
+  have : σ = σ' := Equiv.ext fun i => by rw [← hσ i, h1 i]
+  rw [this]; exact h2
+
+/-! ## determinant -/
+
+/-- the object's `det()` of a square matrix is its determinant -/
+theorem det_eq {n : Nat} (A : Mat ℝ n n) (s : State ℝ n n) (hc : construct A = .ok s) :
+    det s = (toMatrix A).det := by
+  rw [construct_square] at hc
+  injection hc with hc
+  rw [← hc]; exact det_factor A
+
+/-- `MatrixTools::det` returns the determinant of every square matrix -/
+theorem matDet_eq {n : Nat} (A : Mat ℝ n n) : matDet A = .ok (toMatrix A).det := by
+  unfold matDet
+  rw [if_neg (by simp), construct_square]
+  simp only
+  rw [det_factor]
+
+/-- `det()` of a non-square decomposition is `0` and `MatrixTools::det` refuses non-square input -/
+theorem det_nonsquare {m n : Nat} (hmn : m ≠ n) (A : Mat ℝ m n) (s : State ℝ m n) :
+    det s = 0 ∧ matDet A = .error .dimension := by
+  constructor
+  · unfold det; rw [dif_neg (fun e => hmn e.symm)]; simp
+  · unfold matDet; rw [if_pos hmn]
+
+theorem toMatrix_transpose {m n : Nat} (A : Mat ℝ m n) : toMatrix (transpose A) = (toMatrix A).transpose := by
+  ext i j; simp [transpose]
+
+/-- `det(Aᵀ) = det(A)` for the code's determinant -/
+theorem det_transpose {n : Nat} (A : Mat ℝ n n) : matDet (transpose A) = matDet A := by
+  rw [matDet_eq, matDet_eq, toMatrix_transpose, Matrix.det_transpose]
+
+/-- `det(A·B) = det(A)·det(B)` for the code's determinant -/
+theorem det_mul {n : Nat} (A B : Mat ℝ n n) (a b : ℝ) (ha : matDet A = .ok a) (hb : matDet B = .ok b) :
+    matDet (matMul A B) = .ok (a * b) := by
+  rw [matDet_eq] at ha hb
+  injection ha with ha; injection hb with hb
+  rw [matDet_eq, toMatrix_matMul, Matrix.det_mul, ha, hb]
+
+/-! ## solve -/
+
+/-- **A·X = B** whenever `solve` returns (exact arithmetic) -/
+theorem solve_spec {n nx : Nat} (A : Mat ℝ n n) (s : State ℝ n n) (hc : construct A = .ok s)
+    (B : Mat ℝ n nx) (d : ℝ) (X : Mat ℝ n nx) (hs : solve s B = .ok (d, X)) : matMul A X = B := by
+  rw [construct_square] at hc
+  injection hc with hc
+  rw [← hc] at hs
+  exact (solve_ok A B d X hs).1
+
+/-- the returned indicator is the smallest pivot magnitude `min_i |U(i,i)|` -/
+theorem indicator_spec {n nx : Nat} (A : Mat ℝ n n) (s : State ℝ n n) (hc : construct A = .ok s)
+    (B : Mat ℝ n nx) (d : ℝ) (X : Mat ℝ n nx) (hs : solve s B = .ok (d, X)) :
+    (∀ i : Fin n, d ≤ |(getU (Nat.le_refl n) s).get i i|) ∧ ∃ i : Fin n, d = |(getU (Nat.le_refl n) s).get i i| := by
+  rw [construct_square] at hc
+  injection hc with hc
+  rw [← hc] at hs
+  obtain ⟨hn, hd⟩ := (solve_ok A B d X hs).2
+  have := minDiag_spec (factor (Nat.le_refl n) A) rfl hn
+  rw [← hd, hc] at this
+  simpa [getU] using this
+
+/-- a pivot below the threshold makes `solve` raise `ZeroDivisionException` (never an answer),
+whatever the right-hand side of the right height -/
+theorem singular_raises {n nx : Nat} (s : State ℝ n n) (B : Mat ℝ n nx)
+    (hsing : ∃ i : Fin n, |s.lu.get i i| < threshold) : solve s B = .error .zeroDivision := by
+  obtain ⟨i, hi⟩ := hsing
+  have hn : 0 < n := Nat.lt_of_le_of_lt (Nat.zero_le _) i.isLt
+  unfold solve
+  rw [dif_pos rfl, dif_pos ⟨rfl, hn⟩]
+  simp only
+  have hlt : minDiag s rfl hn < threshold := lt_of_le_of_lt ((minDiag_spec s rfl hn).1 i) hi
+  have : belowThreshold (minDiag s rfl hn) = true := by
+    unfold belowThreshold
+    split
+    · simpa using hlt
+    · simpa using le_of_lt hlt
+  rw [if_pos this]
+
+/-- conversely, with all pivots at or above the threshold (strictly above, should the guard be
+`<=`) and at least one right-hand-side column, `solve` returns -/
+theorem solve_returns {n nx : Nat} (s : State ℝ n n) (B : Mat ℝ n nx) (hn : 0 < n) (hnx : 0 < nx)
+    (hreg : ∀ i : Fin n, threshold < |s.lu.get i i|) : ∃ d X, solve s B = .ok (d, X) := by
+  unfold solve
+  rw [dif_pos rfl, dif_pos ⟨rfl, hn⟩]
+  simp only
+  obtain ⟨i, hi⟩ := (minDiag_spec s rfl hn).2
+  have hlt : threshold < minDiag s rfl hn := by rw [hi]; exact hreg i
+  have : ¬ belowThreshold (minDiag s rfl hn) = true := by
+    unfold belowThreshold
+    split
+    · simpa using le_of_lt hlt
+    · simpa using hlt
+  rw [if_neg this, if_pos hnx]
+  exact ⟨_, _, rfl⟩
+
+/-- a right-hand side of the wrong height is refused (`BadIntegerException`) before anything else -/
+theorem wrong_height_raises {m n mb nx : Nat} (s : State ℝ m n) (B : Mat ℝ mb nx) (h : mb ≠ m) :
+    solve s B = .error .badInteger := by
+  unfold solve; rw [dif_neg h]
+
+/-! ## inverse -/
+
+/-- **A·inv(A) = I** whenever `MatrixTools::inv` returns; the indicator is the smallest pivot -/
+theorem inv_spec {n : Nat} (A : Mat ℝ n n) (d : ℝ) (O : Mat ℝ n n) (hi : inv A = .ok (d, O)) :
+    matMul A O = identity n ∧ toMatrix A * toMatrix O = 1 := by
+  unfold inv at hi
+  rw [if_neg (by simp), construct_square] at hi
+  simp only at hi
+  have h1 := (solve_ok A (identity n) d O hi).1
+  refine ⟨h1, ?_⟩
+  rw [← toMatrix_matMul, h1]
+  ext i j
+  simp [identity, Matrix.one_apply, Fin.ext_iff]
+
+/-- `MatrixTools::inv` refuses non-square input -/
+theorem inv_nonsquare_raises {m n : Nat} (hmn : m ≠ n) (A : Mat ℝ m n) : inv A = .error .dimension := by
+  unfold inv; rw [if_pos hmn]
 
 end Bpp.C05
